@@ -145,6 +145,9 @@ def mini_model(prov, req, inj, mc):
     return {'doc': doc, 'encapsulee': ['N', 'Comp'], 'file': 'M.dzn'}
 
 
+FILE_FORMS = ['Toaster.dzn.json', 'a.b/c.d.dzn', 'M.json.dzn', 'NoExtension', 'x.DZN']
+
+
 PROV_OPTS = [(['hal', 'hal2'], ['NONE', 'ALL']), (['hal', 'hal2'], ['ALL', 'NONE']),
              (['hal', 'hal2'], ['NONE', ['hal', 'hal2']]), (['a', 'bb', 'ccc'], [['a', 'bb', 'ccc'], 'NONE']),
              (['a', 'bb', 'ccc'], ['NONE', ['ccc', 'a', 'bb']]), (['pX', 'Px'], ['NONE', ['pX', 'Px']])]
@@ -181,6 +184,10 @@ def big_configurations():
            'mc': True, 'fac': 'create'}
     yield {'prov': ['hal'], 'req': names, 'inj': ['inj'], 'psel': ['ALL', 'NONE'], 'rsel': [names[:6], names[6:]],
            'mc': False, 'fac': 'import'}
+    # other forms of the source file name (compound / unusual extensions): only the real hash seeds can tell
+    for form in FILE_FORMS:
+        yield {'prov': ['hal', 'hal2'], 'req': ['x', 'y', 'z'], 'inj': ['inj'], 'psel': ['NONE', 'ALL'],
+               'rsel': [['x', 'y'], 'REMAINING'], 'mc': False, 'fac': 'create', 'file': form}
 
 
 def mk_select(sel, reverse=False, controlled=True):
@@ -200,6 +207,8 @@ def run_build(conf, reverse=False, controlled=True):
     from dznpy.adv_shell import Builder, PortsCfg, PortsSemanticsCfg, MultiClientPortCfg  # pylint: disable=import-outside-toplevel
     from dznpy.scoping import ns_ids_t  # pylint: disable=import-outside-toplevel
     model = mini_model(conf['prov'], conf['req'], conf['inj'], conf['mc'])
+    if conf.get('file'):
+        model['file'] = conf['file']
     fct = B.parse_model(model)
     mcfg = MultiClientPortCfg(conf['prov'][0], 'Claim', ns_ids_t('Ok'), 'Release') if conf['mc'] else None
     pcfg = PortsCfg(provides=PortsSemanticsCfg(sts=mk_select(conf['psel'][0], reverse, controlled),
